@@ -213,6 +213,8 @@ def check_property(pid, tier, seed):
         if e.get("status") != "open":
             continue
         viol, info = native_replay(pid, e["harness"], e["witness"], tries=5)
+        if viol is None:
+            harness_errors.append("witness of open finding %s (%s) cannot be replayed: %s" % (e["id"], e["harness"], info.get("error")))
         if viol:
             line = "KNOWN-FINDING: property=%s %s" % (pid, e["what"])
             print(line, flush=True)
@@ -224,6 +226,9 @@ def check_property(pid, tier, seed):
             viol, info = native_replay(pid, e["harness"], e["witness"], tries=3)
             if viol:
                 violations.append((e["harness"], e["witness"], info))
+            elif viol is None:
+                # e.g. the harness signature changed and the recorded witness no longer fits: never a silent pass
+                harness_errors.append("regression witness of %s (%s) cannot be replayed: %s" % (e["id"], e["harness"], info.get("error")))
 
     # 2. build task list: twins, fidelity, shards
     tasks = []
